@@ -217,6 +217,11 @@ struct Driver {
             }
             ev::Ev e("store"); e.i("c", id).i("b", pb).i("ttl", clampms(ttl * 1000)).i("dl", dl).i("mexp", sy_ms(m.expires_at)).i("sexp", sexp).i("aexp", aexp);
             fin(e);
+        } else if (op == "selfann") {
+            // the public announce_chunk(): the operator (or a library user) re-announces a chunk with a TTL of its own
+            long id = c.i("c"); long long ttl = c.i("ttl");
+            a->announce_chunk(cid(id), std::chrono::seconds(ttl));
+            ev::Ev e("selfann"); e.i("c", id).i("ttl", clampms(ttl * 1000)); fin(e);
         } else if (op == "fetch") {
             long id = c.i("c");
             auto d = a->fetch_chunk(cid(id));
